@@ -99,6 +99,18 @@ def projection(run: Run, lines):
     }
 
 
+def other_threshold(raw: str) -> str:
+    """the same instruction with another threshold (9.0, or none -> 9.0)"""
+    body = raw.strip()
+    head = body.split(" ", 1)
+    try:
+        float(head[0])
+        body = head[1] if len(head) > 1 else ""
+    except ValueError:
+        pass
+    return "9.0 " + body
+
+
 def make_edits(lines, ms, n_tag, ever=()):
     """All edit variants applicable to `lines` given the reported method state. -> [(kind, new_lines, expect)]
     `ever`: ids of lines that were reported started or executed at some earlier tick (a macro definition is reported executed
@@ -112,6 +124,11 @@ def make_edits(lines, ms, n_tag, ever=()):
         new = list(lines)
         new[li["idx"]] = (li["id"], " " * li["indent"] + CHANGE[li["name"]].format(n=n_tag))
         out.append((f"change-once-executed:{li['name']}", new, "reject"))
+        for li in once:          # only the threshold of the line changes (every such line: the body lines come after the Macro line)
+            if not li["opener"]:
+                new = list(lines)
+                new[li["idx"]] = (li["id"], " " * li["indent"] + other_threshold(li["raw"]))
+                out.append((f"change-once-executed-threshold:{li['name']}", new, "reject"))
     out.append(("resave", list(lines), "accept"))
     out.append(("append-end", list(lines) + [(f"N{n_tag}a", f"Mark: z{n_tag}a")], "accept"))
     # append at the end of every open body
@@ -146,6 +163,12 @@ def make_edits(lines, ms, n_tag, ever=()):
             new = list(lines)
             new[li["idx"]] = (li["id"], " " * li["indent"] + CHANGE[li["name"]].format(n=n_tag))
             out.append((f"change-{which}:{li['name']}", new, "reject"))
+            leaf_c = [c for c in cands if not c["opener"]]
+            if leaf_c:
+                li = leaf_c[-1]
+                new = list(lines)
+                new[li["idx"]] = (li["id"], " " * li["indent"] + other_threshold(li["raw"]))
+                out.append((f"change-{which}-threshold:{li['name']}", new, "reject"))
         # a blank or comment line that the interpreter has passed is a passed line too: filling it in changes what has run
         blanks = [li for li in info if li["id"] in ids and li["blank"]]
         if blanks:
@@ -415,8 +438,11 @@ def corpus(ctx):
         two_small = set(pgen.forests(["M", "L", "K", "W"], 2, 2))
         three = list(pgen.forests(["M", "L", "K", "Wa", "W"], 3, 2))
         macro3 = [f for f in pgen.forests(["MA", "CA", "W", "M"], 3, 2) if {"MA", "CA"} <= set(pgen.kinds_flat(f))]
+        # a macro that is called twice (its body lines have run once when the second call resets them)
+        M_, T_, W_, CA_ = ("M", ()), ("T", ()), ("W", ()), ("CA", ())
+        twice = [(("MA", (M_,)), CA_, CA_), (("MA", (T_,)), CA_, CA_), (("MA", (M_, W_, M_)), CA_, CA_), (("MA", (W_, T_)), CA_, W_, CA_)]
         items = ([(f, H_QUICK, True) for f in one] + [(f, H_QUICK, f in two_small) for f in two]
-                 + [(f, H_QUICK, False) for f in three + macro3])
+                 + [(f, H_QUICK, False) for f in three + macro3 + twice])
         bounds = "1 stmt and 2 stmts over {M,L,K,W}: two successive edits; 2 stmts full grammar and 3 stmts over {M,L,K,Wa,W} and 3 stmts over {MA,CA,W,M} with a macro that is called: one edit"
     else:
         three = list(pgen.forests(KINDS_FULL, 3, 2))
@@ -488,6 +514,6 @@ def replay(data):
     final = [tuple(x) for x in last["lines"]]
     frun, _, _ = drive(final, {}, horizon)
     print("fresh run of final, marks:", frun.marks(), "commands:", sorted(frun.cmd_lifecycles().values()))
-    expect = "reject" if last["kind"].startswith(("change-started", "change-executed")) else "accept"
+    expect = "reject" if last["kind"].startswith(("change-started", "change-executed", "change-once-executed")) else "accept"
     out, _, _ = check_edit(lines0, prefix, last["tick"], last["kind"], final, expect, horizon, base, {})
     return out
